@@ -135,7 +135,9 @@ func runC13Cell(e *core.Env, r *rand.Rand, c *Carrier, scheme string, secure boo
 		sc.NHdrOpt = r.Intn(2)
 		sc.NTrlOpt = r.Intn(2)
 		if r.Intn(2) == 0 {
-			peer2 = new(peer.Peer)
+			// the caller's own variable, used for one call after another over different channels: each call
+			// overwrites it completely
+			peer2 = c13ReusedPeer
 			sc.ExtraOpts = append(sc.ExtraOpts, grpc.Peer(peer2))
 		}
 		cell += fmt.Sprintf("|hdr=%d,trl=%d,peers=%d", sc.NHdrOpt, sc.NTrlOpt, 1+btoi(peer2 != nil))
@@ -227,6 +229,8 @@ func runC13Cell(e *core.Env, r *rand.Rand, c *Carrier, scheme string, secure boo
 		}
 	}
 }
+
+var c13ReusedPeer = new(peer.Peer)
 
 func btoi(b bool) int {
 	if b {
